@@ -3,8 +3,9 @@ import LitexModel.Wishbone.Sram
 /-
   Model of `wishbone.Remapper`: origin/mask remapping followed by region-to-region remapping of the address;
   every other signal is connected straight through (`master.connect(slave)`).
-  Signal widths are those the code creates, including `Signal.like(master.adr + adr_shift + 1)` for the
-  byte-address temporaries (two bits wider than `max(len(adr), bits_for(adr_shift))`).
+  Signal widths are those the code creates: the byte-address temporaries `src_adr`/`dst_adr` are
+  `len(master.adr) + adr_shift + 1` bits wide (since the fix c6b084c; before it they were only two bits wider
+  than the word address, which truncated byte addresses on 64-bit and wider buses).
 -/
 namespace Litex.WbMem
 open Litex
@@ -33,8 +34,8 @@ def maskBits : Nat := Nat.log2 c.size - c.shift
 /-- `adr_remap = (origin >> shift) | (master.adr & adr_mask)`. -/
 def adrRemap (a : Nat) : Nat := (c.origin >>> c.shift) ||| (a % 2 ^ c.aw % 2 ^ maskBits c)
 
-/-- `len(Signal.like(master.adr + adr_shift + 1))`. -/
-def tmpBits : Nat := max c.aw (bitsFor c.shift) + 2
+/-- `len(src_adr) = len(dst_adr) = len(master.adr) + adr_shift + 1`. -/
+def tmpBits : Nat := c.aw + c.shift + 1
 
 /-- `src_adr`. -/
 def srcAdr (a : Nat) : Nat := (adrRemap c a * 2 ^ c.shift) % 2 ^ tmpBits c
